@@ -9,6 +9,7 @@ kinds, AttributeError on a missing attribute, KeyError, arity errors of ``%``)
 is a branch of its own that ends in ``PyRaise``.
 """
 import ast
+import os
 import builtins as _bi
 import inspect
 import textwrap
@@ -281,6 +282,10 @@ FEAS_TIMEOUT_MS = 600000      # backstop only: FEAS_RLIMIT is the budget that bi
 FEAS_RLIMIT = 15000000
 
 
+_DUMP_DIR = os.environ.get('PYVC_DUMP_QUERIES')
+_DUMP_N = [0]
+
+
 class FreshSolver:
     """Assertion stack whose every check() runs on a fresh z3 solver.
 
@@ -297,6 +302,11 @@ class FreshSolver:
         self._solver = None
 
     def set(self, k, v):
+        if k == 'timeout':
+            # no wall-clock timeouts: z3 starts a timer thread per check for them (thread stack mmap/munmap and
+            # futex traffic were ~40% of the run time with 16 processes), and the budget that binds is the
+            # deterministic `rlimit` anyway
+            return
         self.params[k] = v
 
     def add(self, *fs):
@@ -334,6 +344,10 @@ class FreshSolver:
         for f in vals.AXIOMS:
             s.add(f)
         self.last = s
+        if _DUMP_DIR:
+            _DUMP_N[0] += 1
+            if _DUMP_N[0] % 40 == 0:
+                open(os.path.join(_DUMP_DIR, 'q%05d.smt2' % _DUMP_N[0]), 'w').write(s.to_smt2())
         return s.check()
 
     def model(self):
@@ -424,6 +438,17 @@ class Path:
                     feas.append(k)
             if not feas:
                 raise PathAbort()
+            force = getattr(self.engine, 'force_choices', None)
+            ci = sum(1 for ev in self.decisions if isinstance(ev, tuple) and ev[0] == 'c') if force else 0
+            if force and ci < len(force):
+                # case split across processes: this run owns one bucket of the ci-th choice of every path
+                # (bucket 0 = the first feasible alternative, bucket 1 = all the others)
+                if force[ci] == 0:
+                    feas = feas[:1]
+                else:
+                    feas = feas[1:]
+                    if not feas:
+                        raise PathAbort()
             k = feas[0]
             for alt in feas[1:]:
                 self.engine.pending.append(self.decisions + [('c', alt)])
@@ -571,7 +596,7 @@ class Engine:
 
     MAX_PATHS = 4000
     INLINE_PACKAGES = ('stone', 'spec', 'contracts', 'pyvc', 'lemmas')
-    TIME_BUDGET = 1200
+    TIME_BUDGET = 6 * 3600      # backstop only (wall clock must not decide a verdict); MAX_PATHS is the bound
     MAX_DEPTH = 14
 
     def __init__(self, seed=0):
